@@ -73,6 +73,8 @@ def check(sc, info):
     errs = []
     for div in (1, 2, 4):
         s2, r, dt = run_at(sc, info, div)
+        if 'Timeout' in (r['err'] or ''):
+            return []                   # the harness's own wall-clock limit, not an outcome of the code
         if r['err'] is not None:
             return [O.W('raises', f'linear scenario raised {r["err"]} {r.get("errmsg")}', s2)]
         rows = O.rows_si(r['rows'])
